@@ -303,4 +303,52 @@ theorem dangling_index_error (getType : Nat → String) (c : Code) (hpos : 0 < c
         simpa using hno h hh
       simp only [rangeOf, this]
 
+/-! ### `h_off` is a dict: keys stay unique -/
+
+theorem dictAdd_keys (d : Dict) (k : Nat) (e : Entry) :
+    (dictAdd d k e).map (·.1) = if k ∈ d.map (·.1) then d.map (·.1) else d.map (·.1) ++ [k] := by
+  induction d with
+  | nil => simp [dictAdd]
+  | cons kv d ih =>
+    obtain ⟨k', es⟩ := kv
+    simp only [dictAdd]
+    by_cases hk : k' = k
+    · simp [hk]
+    · have hk' : ¬ k = k' := fun h => hk h.symm
+      simp only [hk, if_false, List.map_cons, ih, List.mem_cons, hk', false_or]
+      split <;> simp
+
+/-- `h_off` never holds a key twice (it is a dict): this is what makes "update the entry with
+    key k" and "update every entry with key k" (`dictAttach`) the same operation -/
+theorem dictAdd_nodup (d : Dict) (k : Nat) (e : Entry) (h : (d.map (·.1)).Nodup) :
+    ((dictAdd d k e).map (·.1)).Nodup := by
+  rw [dictAdd_keys]
+  split
+  · exact h
+  · rename_i hn
+    rw [List.nodup_append]
+    refine ⟨h, by simp, ?_⟩
+    intro a ha b hb
+    simp only [List.mem_singleton] at hb
+    subst hb
+    intro hab; subst hab; exact hn ha
+
+theorem groupTries_nodup (base : Nat) (tries : List TryItem) :
+    ((groupTries base tries).map (·.1)).Nodup := by
+  unfold groupTries
+  have : ∀ d : Dict, (d.map (·.1)).Nodup →
+      ((tries.foldl (fun d t => dictAdd d (t.handlerOff + base) (t, [])) d).map (·.1)).Nodup := by
+    induction tries with
+    | nil => intro d hd; exact hd
+    | cons t ts ih => intro d hd; exact ih _ (dictAdd_nodup d _ _ hd)
+  exact this [] (by simp)
+
+theorem dictAttach_keys (d : Dict) (h : Handler) : (dictAttach d h).map (·.1) = d.map (·.1) := by
+  simp only [dictAttach, List.map_map]
+  apply List.map_congr_left
+  intro kv _
+  obtain ⟨k, es⟩ := kv
+  simp only [Function.comp]
+  split <;> rfl
+
 end AgVerif.Tries
